@@ -52,7 +52,11 @@ def run(ctx):
             faithful = got_hdr == hdr and got_recs == recs and out[2] == tail
             rewrite_ok = w[0] == "ok" and w[1] == data
             if not (faithful and rewrite_ok):
-                explained = (got_hdr == hdr and out[2] == tail and got_recs == exp_trunc and sub_second)
+                # the recorded finding explains a mismatch only if BOTH the returned records and the
+                # rewritten bytes are exactly what whole-second truncation predicts
+                predicted_rewrite = refbatch.enc_prepared(hdr, exp_trunc)
+                explained = (got_hdr == hdr and out[2] == tail and got_recs == exp_trunc and sub_second
+                             and w[0] == "ok" and w[1] == predicted_rewrite)
                 if explained:
                     known_hits.append(label)
                 else:
